@@ -148,8 +148,10 @@ class _F2(rs_model.Function2D):
         return self.f(x, y)
 
 
-KINDS_Q = ['scalar', 'array', 'func1d']
-KINDS_T = ['scalar', 'array', 'func1d', 'func2d']
+# 'func1d_int': the free variable is an integer-typed array (a channel / flux-surface index): sampled profile values must
+# still be stored as doubles
+KINDS_Q = ['scalar', 'array', 'func1d', 'func1d_int']
+KINDS_T = ['scalar', 'array', 'func1d', 'func1d_int', 'func2d', 'func2d_int']
 
 
 @harness('C09', name='entry_points',
@@ -163,7 +165,7 @@ KINDS_T = ['scalar', 'array', 'func1d', 'func2d']
                                             'interpolators1d_match_plasma_neutrality',
                                             'equilibrium_map3d_fractional')],
          universe=_universe, cover=['entry-points-ran'],
-         bounds={'element': 'Z=2', 'profile length': '2 points (arrays / free variable); 2x1 for Function2D',
+         bounds={'element': 'Z=2', 'profile length': '2 points (arrays / free variable, float- or integer-typed); 2x1 for Function2D',
                  'values': 'densities, temperatures, rates symbolic'},
          stubs=['_fractional_abundance_point replaced by a recording uninterpreted function F_k(n_e, t_e, n_D, tcx?) of its '
                 'arguments (its own correctness is the subject of balance_point)',
@@ -219,17 +221,17 @@ def entry_points(ex, uni, kind, donor):
         ne, te, nd, nel = [np.array(v, dtype=dt) for v in (ne_v, te_v, nd_v, nel_v)]
         other = np.array(other_v, dtype=dt)
         idxs = [(i,) for i in range(npts)]
-    elif kind == 'func1d':
+    elif kind in ('func1d', 'func1d_int'):
         npts_eff = npts
-        fv = np.array([0.25, 0.75])
-        pick = lambda vals: _F1(lambda x: vals[0] if x == 0.25 else vals[1])
+        fv = np.array([0.25, 0.75]) if kind == 'func1d' else np.array([3, 7])
+        pick = lambda vals: _F1(lambda x: vals[0] if x == fv[0] else vals[1])
         ne, te, nd, nel = pick(ne_v), pick(te_v), pick(nd_v), pick(nel_v)
         other = np.array(other_v, dtype=dt)
         idxs = [(i,) for i in range(npts)]
     else:
         npts_eff = npts
-        fv = [np.array([0.25, 0.75]), np.array([1.5])]
-        pick = lambda vals: _F2(lambda x, y: vals[0] if x == 0.25 else vals[1])
+        fv = [np.array([0.25, 0.75]), np.array([1.5])] if kind == 'func2d' else [np.array([3, 7]), np.array([2])]
+        pick = lambda vals: _F2(lambda x, y: vals[0] if x == fv[0][0] else vals[1])
         ne, te, nd, nel = pick(ne_v), pick(te_v), pick(nd_v), pick(nel_v)
         other = np.array(other_v, dtype=dt).reshape(2, 2, 1)
         idxs = [(i, 0) for i in range(npts)]
@@ -256,7 +258,7 @@ def entry_points(ex, uni, kind, donor):
             ex.prove(ex.le(0, mp[k][idx]), 'matched-densities-non-negative')
         charge = sum((k * mp[k][idx] for k in range(1, Z + 1)), 0) + other_v[1][p]
         ex.prove(ex.implies(left >= 0, ex.eq(charge, ne_v[p])), 'matched-charge-equals-n_e')
-    if kind == 'func1d':
+    if kind in ('func1d', 'func1d_int'):
         # interpolator / mapping front-ends forward everything, including the donor
         it = ib.interpolators1d_fractional(AD(), el, fv, ne, te, **kw)
         itd = ib.interpolators1d_from_elementdensity(AD(), el, fv, nel, ne, te, **kw)
